@@ -746,6 +746,12 @@ func c09Scenarios(disk bool) []*schedScenario {
 			},
 		})
 	}
+	// on disk the file and database operations are scheduling points as well
+	if disk {
+		for _, sc := range scs {
+			sc.Cfg.EffectsArePoints = true
+		}
+	}
 	return scs
 }
 
